@@ -6,7 +6,7 @@ use serde::{de::DeserializeOwned, Serialize};
 use std::fmt::Debug;
 
 pub trait Suite:
-    BlsSignatureImpl + Serialize + DeserializeOwned + PartialEq + Eq + Copy + Debug + Send + Sync + 'static
+    BlsSignatureImpl + Default + Serialize + DeserializeOwned + PartialEq + Eq + Copy + Debug + Send + Sync + 'static
 {
     type R: RefSuite;
     const G: &'static str;
@@ -177,6 +177,10 @@ pub enum Codec {
     Json,
     Be,
     Le,
+    /// the by-value / container conversions: Vec<u8>::from(T), TryFrom<Vec<u8>>, TryFrom<&Vec<u8>>, TryFrom<Box<[u8]>>
+    VecOwned,
+    VecRef,
+    BoxSlice,
 }
 
 pub fn via_bare<T: Serialize + DeserializeOwned>(v: &T) -> Result<T, String> {
@@ -196,6 +200,7 @@ pub fn transport_sk<C: Suite>(sk: &SecretKey<C>, c: Codec) -> Result<SecretKey<C
         Codec::Json => via_json(sk),
         Codec::Be => Option::from(SecretKey::<C>::from_be_bytes(&sk.to_be_bytes())).ok_or("from_be_bytes None".to_string()),
         Codec::Le => Option::from(SecretKey::<C>::from_le_bytes(&sk.to_le_bytes())).ok_or("from_le_bytes None".to_string()),
+        _ => Err("codec not offered".into()),
     }
 }
 pub fn transport_pk<C: Suite>(pk: &PublicKey<C>, c: Codec) -> Result<PublicKey<C>, String> {
